@@ -671,6 +671,18 @@ class JinjaAnalyzer:
                     )
                 str_buff = ""
                 str_parts = []
+        if str_buff:
+            # Jinja tolerates an opening comment tag at the very end of the
+            # file with nothing after it (a trailing "{#") and renders it as
+            # nothing. Keep it as a comment slice so that the raw slices still
+            # cover the whole file.
+            self.raw_sliced.append(
+                RawFileSlice(str_buff, "comment", self.idx_raw, block_idx)
+            )
+            self.raw_slice_info[self.raw_sliced[-1]] = self.make_raw_slice_info(
+                None, None
+            )
+            self.idx_raw += len(str_buff)
         return self._get_jinja_tracer(
             self.raw_str,
             self.raw_sliced,
